@@ -30,5 +30,5 @@ PY
 }
 export -f one
 ids=${@:-$(ls seeded)}
-for id in $ids; do echo $id; done | xargs -P 4 -I{} bash -c 'one {}'
+for id in $ids; do echo $id; done | xargs -P ${VERIFY_PAR:-4} -I{} bash -c 'one {}'
 echo "#### VERIFY DONE"
